@@ -73,6 +73,8 @@ Failing(e) ==
     [] e.k = "alpha" -> FailingAlpha(e)
     [] e.k = "subst" -> USubst(e)
     [] e.k = "canon" -> UCanon(e)
+    [] e.k = "canonchain" -> UCanonChain(e)
+    [] e.k = "fprt" -> UFpRoundTrip(e)
     [] e.k = "cases" -> UCases(e, Asgs(e))
     [] e.k = "dict" -> UDict(e, Asgs(e))
     [] e.k = "revcases" -> URev(e, Asgs(e))
